@@ -1,9 +1,9 @@
-\* edge emission: unset start / one-of-two same-named keep-sets, deeper (thorough)
+\* edge emission: a tree made read-only INSIDE an open scope; the exit is refused and nothing is restored (quick + thorough)
 CONSTANTS N = 2  Par = {"p", "q"}  NVal = 2  NGrid = 2  MaxDepth = 2  MaxLevel = 5
           GridSlot = "stack"  PickleSerial = "fresh"  DbSerial = "max"
-CONSTANTS Keeps <- KeepsOne  Acts <- ActsParams  Parent0 <- ParentD  Cls0 <- ClsD
-          ParOf <- McParOf  GridCls <- McGridCls  MatCls <- McMatCls
-          DbCls <- McDbCls  CopyCls <- McAllCls  CallsOf <- McCallsOf  Unset0 <- McUnset  Link0 <- LinkNone
+CONSTANTS Keeps <- KeepsNone  Acts <- ActsFreeze  Parent0 <- ParentD  Cls0 <- ClsD
+          ParOf <- QOnly  GridCls <- McGridCls  MatCls <- McMatCls
+          DbCls <- McDbCls  CopyCls <- McAllCls  CallsOf <- McCallsOf  Unset0 <- NoUnset  Link0 <- LinkNone
 ACTION_CONSTRAINT Emit
 INIT Init
 NEXT Next
